@@ -305,4 +305,67 @@ def powerGuard : Kind → Bool
   | .switch => false
   | .firewall => false
 
+/-! ### finite topologies and the decidable cut certificate (used by the R-net rig through the driver) -/
+
+/-- why an attacker-side node lets nothing through (see `Role` in Props/C06.lean) -/
+inductive RoleTag | interior | ifaceDown | routerOff | routerDeny | fwDeny | frozen
+deriving DecidableEq, Repr
+
+/-- A finite network: per node (attacker side?, role), and directed wire ends `(n, q) ↦ (m, r)`
+(a physical link contributes both directions). -/
+structure Topo where
+  nodes : List (Bool × RoleTag)
+  wires : List ((Nat × Nat) × (Nat × Nat))
+deriving Repr
+
+def Topo.side (t : Topo) (n : Nat) : Bool :=
+  match t.nodes[n]? with
+  | some x => x.1
+  | none => false
+
+def Topo.role (t : Topo) (n : Nat) : RoleTag :=
+  match t.nodes[n]? with
+  | some x => x.2
+  | none => .interior
+
+def Topo.wire (t : Topo) (n q : Nat) : Option (Nat × Nat) :=
+  (t.wires.find? (fun w => w.1.1 == n && w.1.2 == q)).map (·.2)
+
+def firstSome : List (Option Rule) → Option Rule
+  | [] => none
+  | none :: rest => firstSome rest
+  | some r :: _ => some r
+
+def anyAnyDeny (r : Rule) : Bool :=
+  r.action == .deny && r.proto.isNone && r.srcIp.isNone && r.dstIp.isNone && r.srcPort.isNone && r.dstPort.isNone
+
+/-- decidable sufficient condition for "denies every packet": the first non-empty slot is an any-any DENY, or
+the list is empty and the implicit action is DENY -/
+def denyAllCheck (a : Acl) : Bool :=
+  match firstSome a.rules with
+  | some r => anyAnyDeny r
+  | none => a.implicit == .deny
+
+/-- the role condition of node `n` in state `s`, as a decidable check -/
+def certifyNode {W : Type} (t : Topo) (n : Nat) (s : Node W) : Bool :=
+  match t.role n with
+  | .interior => t.wires.all (fun w => w.1.1 != n || t.side w.2.1)
+  | .ifaceDown => t.wires.all (fun w => w.1.1 != n || t.side w.2.1 || !portEnabled s w.1.2)
+  | .routerOff => s.kind == .router && !s.on
+  | .routerDeny => s.kind == .router && denyAllCheck (s.acls .router)
+  | .fwDeny => s.kind == .firewall &&
+      t.wires.all (fun w => w.2.1 != n || !t.side w.1.1 ||
+        match portEntry w.2.2 with
+        | some e => denyAllCheck (s.acls (entryAcl e))
+        | none => true)
+  | .frozen => s.ifaces.all (fun i => !i.enabled)
+
+/-- every attacker-side node meets its role's condition -/
+def certify {W : Type} (t : Topo) (σ : Nat → Node W) : Bool :=
+  (List.range t.nodes.length).all (fun n => !t.side n || certifyNode t n (σ n))
+
+/-- first attacker-side node that does not (diagnostics for the rig) -/
+def certifyFail {W : Type} (t : Topo) (σ : Nat → Node W) : Option Nat :=
+  (List.range t.nodes.length).find? (fun n => t.side n && !certifyNode t n (σ n))
+
 end Primaite.Filter
